@@ -341,6 +341,10 @@ class C09(CheckBase):
         ops = []
         for n in range(4):
             ops.append({'id': n, 'kind': k, 'args': ops_mod.OPS[k][1](rng, self.ctx), 'thread': n % 2})
+        if rng.random() < 0.4:
+            # both callers start with the very same call: what is built on first use of a key is built twice at once
+            ops[1]['args'] = ops[0]['args']
+            ops[1]['repeat_of'] = 0
         return {'property': 'C09', 'threads': 2, 'ops': ops, 'shared': [], 'faults': [],
                 'sched': {'mode': 'rw', 'p': rng.choice([0.5, 0.5, 0.25, 0.75]), 'seed': rng.getrandbits(64)}, 'switches': [],
                 'opcode_salt': None, 'scribble': False, 'focus': [k], 'pair_sweep': True, 'granularity': 'instr'}
@@ -356,6 +360,9 @@ class C09(CheckBase):
         visits every line of every function."""
         k = self.kinds[kind_index % len(self.kinds)]
         ops = [{'id': n, 'kind': k, 'args': ops_mod.OPS[k][1](rng, self.ctx), 'thread': n} for n in range(2)]
+        if rng.random() < 0.4:
+            ops[1]['args'] = ops[0]['args']          # the same call from both callers (first use of the same key)
+            ops[1]['repeat_of'] = 0
         return {'property': 'C09', 'threads': 2, 'ops': ops, 'shared': [], 'faults': [],
                 'sched': {'mode': 'preempt', 'frac': round(frac, 5), 'diag': bool(variant & 1)}, 'switches': [],
                 'opcode_salt': None, 'scribble': False, 'focus': [k], 'pair_sweep': True,
